@@ -71,7 +71,7 @@ def main():
     if tier == "thorough" and not a.replay:
         from . import selftest as st
         selftest = st.run(pid)
-        st_fail = [m for m in selftest if m["status"] == "missed"]
+        st_fail = [m for m in selftest if m["status"] in ("missed", "false-alarm")]
     if a.explain or a.replay:
         want = None
         if a.replay:
